@@ -7,6 +7,7 @@ A case is a JSON-able dict:
   sels : [operand, ...]                     cond : condition | None
 operand  : ["lit", int | [int]] | ["var", name] | ["attr", operand, attr]
 condition: ["cmp", op, l, r] | ["contains", container, item] | ["and", l, r] | ["or", l, r] | ["not", c]
+           | ["exists", var, c] | ["forall", var, c]
 """
 from __future__ import annotations
 
@@ -83,7 +84,33 @@ def cond_vars(c) -> List[str]:
         return cond_vars(c[1]) + cond_vars(c[2])
     if k == "not":
         return cond_vars(c[1])
+    if k in ("exists", "forall"):
+        return [c[1]] + cond_vars(c[2])
     raise ValueError(k)
+
+
+def cond_fv(c) -> List[str]:
+    k = c[0]
+    if k in ("cmp", "contains"):
+        return cond_vars(c)
+    if k in ("and", "or"):
+        return cond_fv(c[1]) + cond_fv(c[2])
+    if k == "not":
+        return cond_fv(c[1])
+    return [v for v in cond_fv(c[2]) if v != c[1]]
+
+
+def has_quant(c) -> bool:
+    if c is None:
+        return False
+    k = c[0]
+    if k in ("exists", "forall"):
+        return True
+    if k in ("and", "or"):
+        return has_quant(c[1]) or has_quant(c[2])
+    if k == "not":
+        return has_quant(c[1])
+    return False
 
 
 def or_is_union(c) -> bool:
@@ -108,9 +135,14 @@ def classes(case) -> List[str]:
             walk(n[2], under_not)
         elif k == "not":
             walk(n[1], True)
+        elif k in ("exists", "forall"):
+            walk(n[2], under_not)
 
     if c is not None:
         walk(c, False)
+        if has_quant(c):
+            out.append("K_quant")
+            out.extend(quant_classes(case))
     roots = [opnd_var(s) for s in case["sels"]]
     if len(set(roots)) != len(roots):
         out.append("K_selprod")
@@ -118,6 +150,91 @@ def classes(case) -> List[str]:
     if any(len(case["doms"][v]) == 0 for v in qv):
         out.append("K_emptydom")
     return sorted(set(out))
+
+
+def must_bind(c, truth: bool) -> set:
+    """variables certainly bound in every result of the given truth (conservative)"""
+    k = c[0]
+    if k in ("cmp", "contains"):
+        return set(cond_vars(c))
+    if k == "and":
+        if truth:
+            return must_bind(c[1], True) | must_bind(c[2], True)
+        return must_bind(c[1], False) & (must_bind(c[1], True) | must_bind(c[2], False))
+    if k == "or":
+        if truth:
+            return must_bind(c[1], True) & must_bind(c[2], True) if or_is_union(c) else \
+                must_bind(c[1], True) & (must_bind(c[1], False) | must_bind(c[2], True))
+        return (must_bind(c[1], False) | must_bind(c[2], False)) if not or_is_union(c) else \
+            must_bind(c[2], False) & (must_bind(c[1], False) | must_bind(c[2], False))
+    if k == "not":
+        if c[1][0] in ("exists", "forall"):
+            return set()
+        return must_bind(c[1], not truth)
+    if k == "exists":
+        return must_bind(c[2], True) if truth else set()
+    return set()
+
+
+def quant_classes(case) -> List[str]:
+    """K_quant_shadow: a quantified variable also occurs outside its quantifier (or is quantified again inside it);
+    K_quant_nofalse: a quantifier sits where its FALSE outcome is needed (left of an else-if or_, below a not_ that is not
+    directly inverted) -- quantifiers never yield false results;
+    K_forall_open: a for_all (written, or built by not_(exists ...)) evaluated while another variable of its condition is
+    still unbound -- its candidate solutions are then partial and are narrowed by the first result only"""
+    out = set()
+    c = case["cond"]
+    quantified: List[str] = []
+    free: List[str] = [v for v in (opnd_var(s) for s in case["sels"]) if v]
+
+    def forall(y, body, scope, bound):
+        if not (set(cond_fv(body)) - {y}) <= bound:
+            out.add("K_forall_open")
+        if y in scope:
+            out.add("K_quant_shadow")
+        quantified.append(y)
+        walk(body, False, scope | {y}, bound | {y})
+
+    def walk(n, need_false, scope, bound):
+        k = n[0]
+        if k in ("cmp", "contains"):
+            for v in cond_vars(n):
+                if v not in scope:
+                    free.append(v)
+        elif k == "and":
+            walk(n[1], need_false, scope, bound)
+            walk(n[2], need_false, scope, bound | must_bind(n[1], True))
+        elif k == "or":
+            union = or_is_union(n)
+            walk(n[1], need_false or not union, scope, bound)
+            walk(n[2], need_false, scope, bound if union else bound | must_bind(n[1], False))
+        elif k == "not":
+            q = n[1]
+            if q[0] == "exists":
+                forall(q[1], ["not", q[2]], scope, bound)
+            elif q[0] == "forall":
+                if q[1] in scope:
+                    out.add("K_quant_shadow")
+                quantified.append(q[1])
+                walk(["not", q[2]], False, scope | {q[1]}, bound)
+            else:
+                walk(q, True, scope, bound)
+        elif k == "exists":
+            if need_false:
+                out.add("K_quant_nofalse")
+            if n[1] in scope:
+                out.add("K_quant_shadow")
+            quantified.append(n[1])
+            walk(n[2], False, scope | {n[1]}, bound)
+        else:
+            if need_false:
+                out.add("K_quant_nofalse")
+            forall(n[1], n[2], scope, bound)
+
+    walk(c, False, frozenset(), frozenset())
+    if set(quantified) & set(free) or len(set(quantified)) != len(quantified):
+        out.add("K_quant_shadow")
+    return sorted(out)
 
 
 def in_f02(case) -> bool:
@@ -179,6 +296,10 @@ def g_cond(case, c) -> str:
         return f"(mk_or {g_cond(case, c[1])} {g_cond(case, c[2])})"
     if k == "not":
         return f"(mk_not {g_cond(case, c[1])})"
+    if k == "exists":
+        return f"(CExists (OVar {VARS.index(c[1])}%nat) {g_cond(case, c[2])})"
+    if k == "forall":
+        return f"(CForAll {VARS.index(c[1])}%nat {g_cond(case, c[2])})"
     raise ValueError(k)
 
 
@@ -242,7 +363,7 @@ def canon_val(v) -> Any:
 
 
 def build_query(case, objs, quantifier="an", **qkw):
-    from krrood.entity_query_language.entity import let, entity, set_of, and_, or_, not_, contains
+    from krrood.entity_query_language.entity import let, entity, set_of, and_, or_, not_, contains, exists, for_all
     from krrood.entity_query_language.quantify_entity import an, the
 
     types = {"P": P, "T": T, "int": int}
@@ -274,6 +395,10 @@ def build_query(case, objs, quantifier="an", **qkw):
             return or_(cond(c[1]), cond(c[2]))
         if k == "not":
             return not_(cond(c[1]))
+        if k == "exists":
+            return exists(vs[c[1]], cond(c[2]))
+        if k == "forall":
+            return for_all(vs[c[1]], cond(c[2]))
         raise ValueError(k)
 
     sels = [opnd(s) for s in case["sels"]]
@@ -344,6 +469,8 @@ def gen_case(rng: Rng, profile: str = "c01") -> dict:
                 dom.append(dom[0])
             case["vars"][name], case["doms"][name] = "P", dom
     names = list(case["vars"])
+    # profile quant: the last variable is reserved for quantification (scoped: never selected)
+    qvars = [names[-1]] if profile == "quant" and len(names) >= 2 else []
 
     def int_operand(allow_lit=True):
         r = rng.random()
@@ -400,11 +527,21 @@ def gen_case(rng: Rng, profile: str = "c01") -> dict:
             return ["or", l, rr]
         if profile == "c02":
             return ["and", cond(d - 1), cond(d - 1)]
+        if profile == "quant" and qvars and rng.chance(0.7):
+            y = rng.choice(qvars)
+            inner = cond(d - 1)
+            if y not in cond_vars(inner):     # make the quantified variable occur
+                t = case["vars"][y]
+                lhs = ["var", y] if t == "int" else ["attr", ["var", y], "a"]
+                inner = ["and", inner, ["cmp", rng.choice(list(OPS)), lhs, int_operand()]] if rng.chance(0.5) else \
+                        ["and", ["cmp", rng.choice(list(OPS)), lhs, int_operand()], inner]
+            return [rng.choice(["exists", "forall"]), y, inner]
         return ["not", cond(d - 1)]
 
     case["cond"] = cond(rng.randint(0, 3)) if rng.chance(0.96) else None
-    nsel = rng.randint(1, min(2, len(names)))
-    sel_names = rng.sample(names, nsel)
+    selectable = [n for n in names if n not in qvars] or names
+    nsel = rng.randint(1, min(2, len(selectable)))
+    sel_names = rng.sample(selectable, nsel)
     if profile == "c02" and case["cond"] is not None:
         cv = list(dict.fromkeys(cond_vars(case["cond"])))
         sel_names = rng.sample(cv, min(len(cv), nsel)) if cv else sel_names
@@ -436,6 +573,8 @@ def stats(case) -> Dict[str, int]:
             walk(n[2])
         elif n[0] == "not":
             walk(n[1])
+        elif n[0] in ("exists", "forall"):
+            walk(n[2])
 
     if case["cond"] is not None:
         walk(case["cond"])
